@@ -19,16 +19,14 @@ def case_random(seed, dm):
 def judge(ch, hist, dm, engine, parsed, pend=0):
     """-> (verdict, key, detail)"""
     ref = c01lib.ref_run(ch, hist, pend)
-    if ref.diverged:
-        return 'diverged', None, None
-    v, k, d = c01lib.compare_case(ch, hist, dm, engine, parsed, ref)
+    v, k, d = c01lib.compare_case(ch, hist, dm, engine, parsed, ref)      # a reference that livelocks is compared as far as it got
     if v == 'deviation':
         # exact variant match: the implementation computes the transition domain from the static target list
         r2 = refscxml.Ref(ch, ('static_domain',))
         r2.interpret(hist, pend)
-        if not r2.diverged:
-            v2, k2, d2 = c01lib.compare_case(ch, hist, dm, engine, parsed, r2)
-            if v2 == 'ok':
+        v2, k2, d2 = c01lib.compare_case(ch, hist, dm, engine, parsed, r2)
+        if True:
+            if v2 == 'ok' or (r2.diverged and ref.diverged and v2 == 'diverged'):
                 return 'deviation', 'history-target-static-domain', d
     return v, k, d
 
@@ -45,13 +43,13 @@ def work(job):
         if hist_override is not None: hist = hist_override
         ref = c01lib.ref_run(ch, hist)
         built.append((cid, ch, hist, dm, ref.diverged))
-    run = [{'id': cid, 'xml': C.render(ch, dm), 'engine': 'large', 'hist': hist} for cid, ch, hist, dm, div in built if not div]
+    run = [{'id': cid, 'xml': C.render(ch, dm), 'engine': 'large', 'hist': hist} for cid, ch, hist, dm, div in built]
     res = c01lib.run_batch(binary, run)
     out = []
     for cid, ch, hist, dm, div in built:
-        if div:
-            out.append({'id': cid, 'v': 'diverged'}); continue
         v, k, d = judge(ch, hist, dm, 'large', res[cid])
+        if v == 'diverged':
+            out.append({'id': cid, 'v': 'diverged'}); continue
         feats = ch.features()
         rec = {'id': cid, 'v': v, 'k': k, 'dm': dm, 'hash': C.chart_hash(ch) + ':' + ','.join(hist), 'nontrivial': bool(feats & NONTRIVIAL) and len(res[cid]['steps']) > 1,
                'steps': len(res[cid]['steps']), 'feats': sorted(feats)}
